@@ -377,6 +377,31 @@ func escapeLookalike(k int) types.Value {
 	}
 }
 
+// records whose keys differ from the escape words of the format only in letter case: ordinary records
+func caseLookalike(k int) types.Value {
+	rec := func(m types.RecordMap) types.Value { return types.NewRecord(m) }
+	ent := rec(types.RecordMap{"type": types.String("T"), "id": types.String("x")})
+	ext := rec(types.RecordMap{"fn": types.String("ip"), "arg": types.String("1.2.3.4")})
+	switch k % 8 {
+	case 0:
+		return rec(types.RecordMap{"__Entity": ent})
+	case 1:
+		return rec(types.RecordMap{"__ENTITY": ent, "other": types.Long(1)})
+	case 2:
+		return rec(types.RecordMap{"__Extn": ext})
+	case 3:
+		return rec(types.RecordMap{"__EXTN": rec(types.RecordMap{})})
+	case 4:
+		return rec(types.RecordMap{"__eNtItY": types.Long(5)})
+	case 5:
+		return rec(types.RecordMap{"__extN": ext, "__Entity": ent})
+	case 6:
+		return rec(types.RecordMap{"__ENTITY": rec(types.RecordMap{"TYPE": types.String("T"), "ID": types.String("x")})})
+	default:
+		return rec(types.RecordMap{"__Extn": rec(types.RecordMap{"FN": types.String("decimal"), "Arg": types.String("1.0")})})
+	}
+}
+
 var collidingMembers = []types.Value{types.Boolean(true), types.Long(1), cwf.DecimalFromRaw(1), types.NewDurationFromMillis(1), types.NewDatetimeFromMillis(1),
 	types.Boolean(false), types.Long(0), cwf.DecimalFromRaw(0), types.Long(2), types.Long(3), types.Long(5), cwf.DecimalFromRaw(5),
 	types.NewSet(types.Long(1), types.Long(2)), types.NewSet(types.Long(3)), types.NewSet(), types.NewSet(types.Long(0))}
@@ -464,6 +489,12 @@ func driveVJSON(seed int64, n int, params map[string]string) []Obj {
 				out = append(out, Obj{"op": "vjson", "kind": "value", "datum": cwf.ValueToJ(types.NewSet(types.Long(-1), cwf.DecimalFromRaw(-1)))})
 			} else if i%64 == 2 {
 				out = append(out, Obj{"op": "vjson", "kind": "value", "datum": cwf.ValueToJ(escapeLookalike(i / 64))})
+			} else if i%64 == 34 || i%64 == 18 {
+				v := caseLookalike(i / 16)
+				if (i/64)%3 == 1 { // nested: the value of an attribute, a member of a set
+					v = types.NewRecord(types.RecordMap{"k": v, "s": types.NewSet(v)})
+				}
+				out = append(out, Obj{"op": "vjson", "kind": "value", "datum": cwf.ValueToJ(v)})
 			} else {
 				out = append(out, Obj{"op": "vjson", "kind": "value", "datum": cwf.ValueToJ(g.jsonValue(3))})
 			}
